@@ -34,6 +34,9 @@ T8 == [kfs |-> <<Kf(0, <<100>>, N_, 0), Kf(2, <<120>>, <<5>>, 0), Kf(4, <<200>>,
 T9 == [kfs |-> <<Kf(0, <<-100>>, <<-7>>, 0), Kf(4, <<100>>, <<7>>, 0)>>, de |-> 1, tm |-> Tm(4, 0, -1, FALSE)]
 \* starts exactly when T1 ends (delay = T1's total duration): a sequenced pair inside one merged timeline
 T10 == [kfs |-> <<Kf(0, N_, <<50>>, 0), Kf(4, N_, <<77>>, 0)>>, de |-> 1, tm |-> Tm(4, 4, -1, FALSE)]
+\* timing but NO keyframes (a timed pause): nothing is written, yet the state runs for delay + cycle x (repeats + 1)
+T11 == [kfs |-> <<>>, de |-> 1, tm |-> Tm(2, 1, 1, FALSE)]
+T12 == [kfs |-> <<>>, de |-> 1, tm |-> Tm(2, 0, -2, FALSE)]
 Pool == <<
   [tls |-> <<<<T1>>, <<T2>>, <<>>, <<>>>>,          s0 |-> 1, v0 |-> <<5, 7>>],
   [tls |-> <<<<T3>>, <<T5, T4>>, <<>>, <<T1>>>>,    s0 |-> 1, v0 |-> <<5, 7>>],
@@ -41,7 +44,8 @@ Pool == <<
   [tls |-> <<<<>>, <<T7>>, <<T1, T5>>, <<>>>>,      s0 |-> 1, v0 |-> <<9, 4>>],
   [tls |-> <<<<T6>>, <<T3>>, <<>>, <<T4>>>>,        s0 |-> 2, v0 |-> <<0, 0>>],
   [tls |-> <<<<T8>>, <<>>, <<T7, T8>>, <<T2>>>>,    s0 |-> 1, v0 |-> <<3, 1>>],
-  [tls |-> <<<<T9>>, <<T1, T10>>, <<>>, <<T4>>>>,   s0 |-> 1, v0 |-> <<-90, 4>>] >>
+  [tls |-> <<<<T9>>, <<T1, T10>>, <<>>, <<T4>>>>,   s0 |-> 1, v0 |-> <<-90, 4>>],
+  [tls |-> <<<<T11>>, <<T1, T11>>, <<T12>>, <<T7>>>>, s0 |-> 1, v0 |-> <<6, 2>>] >>
 Cfg == Pool[K]
 
 VARIABLES cur, ticks, paused, ov, vals, tls, hist, obs, rng
